@@ -42,7 +42,7 @@ def pAttrPart (tr : Bool) : G.Attr → List K
 /-- one attribute per bracket: `#[a]` / `#![a]` -/
 def pAttr (inner : Bool) (tr : Bool) (a : G.Attr) : List K :=
   .punct '#' false :: (if inner then [K.punct '!' false] else []) ++
-    (.op .bracket :: pAttrPart tr a ++ [.cl .bracket])
+    pGroup .bracket (pAttrPart tr) ',' false [a]
 
 def pAttrs (inner : Bool) (tr : Bool) (as : List G.Attr) : List K := as.flatMap (pAttr inner tr)
 
